@@ -415,10 +415,13 @@ class ipv6 (packet_base):
     else:
       self.payload_length = len(payload)
 
+    ehs = b''.join(eh.pack() for eh in self.extension_headers)
+    self.payload_length += len(ehs)
 
     r = struct.pack("!IHBB", vtcfl, self.payload_length, nht, self.hop_limit)
     r += self.srcip.raw
     r += self.dstip.raw
+    r += ehs
 
     return r
 
